@@ -142,6 +142,10 @@ def real_import(base, name, roots):
             return ['exc', type(e).__name__]
         f = getattr(mod, '__file__', None)
         if f is None:
+            # a namespace package made only of directories outside the scenario (e.g. a __pycache__
+            # somewhere on the interpreter's own path) says nothing about the scenario's roots
+            if not any(str(x).startswith(base + '/') for x in list(getattr(mod, '__path__', []))):
+                return ['skipped']
             return ['ns']
         o = rel(base, f)
         if o and o[0] == '<outside>':
